@@ -75,6 +75,9 @@ PROFILES = {
          dict(probe_level=0, illegal=0.03, fold=0.03, raise_=0.1, discard=0.9, explicit_player=0.6, multi_card=0.5)),
         ('deck-exactly-exhausted', 60, 600, dict(variants=['F2L3D', 'F2L3D', 'FB'], stacks='deep', max_n=6),
          dict(probe_level=0, illegal=0.0, fold=0.0, raise_=0.05, exhaust=True)),
+        # stud with two starting boards, full ring, nobody folding: the street the deck cannot cover goes to BOTH boards
+        ('stud-two-boards-full-ring', 40, 400, dict(variants=STUD, stacks='deep', max_n=8, force_boards0=2, mode='C'),
+         dict(probe_level=0, illegal=0.0, fold=0.0, raise_=0.05)),
     ],
     'C12': [
         ('deep-showdowns', 220, 2200, dict(stacks='deep'), dict(probe_level=0, illegal=0.0, fold=0.03, raise_=0.2, manual_show=0.1)),
